@@ -105,10 +105,39 @@ def check_bytesio():
     return n
 
 
+def check_status_tables():
+    """the IntervalTable stand-ins of C18 against the module's own tables on every code 0..65535 x every key"""
+    import warnings
+    warnings.simplefilter('ignore')
+    from vt.harness import c18
+    from pynetdicom2 import dimsemessages as dm
+    n = 0
+    assert c18.REAL, 'no status table was wrapped: %r' % (c18.UNWRAPPED,)
+    cfs = [None, 0x7777] + sorted(dm.MESSAGE_TYPE)
+    for name, real in c18.REAL.items():
+        t = c18.WRAPPED[name]
+        if t.mode == 'pair':
+            for cf in cfs:
+                for code in range(65536):
+                    assert t.get((cf, code), '??') == real.get((cf, code), '??'), (name, cf, code)
+                    n += 1
+        elif t.mode == 'code':
+            for code in range(-1, 65537):
+                assert t.get(code, '??') == real.get(code, '??'), (name, code)
+                n += 1
+        else:
+            for k, sub in real.items():
+                w = t.get(k)
+                for code in range(65536):
+                    assert w.get(code, '??') == sub.get(code, '??'), (name, k, code)
+                    n += 1
+    return n
+
+
 def main():
     n1 = check_struct()
     n2 = check_bytesio()
-    extra = []
+    extra = ['status tables %d look-ups' % check_status_tables()]
     try:
         from vt import sim
         if hasattr(sim, 'selftest'):
